@@ -39,9 +39,13 @@ def binary_path(profile="debug"):
 def binary(profile="debug", quiet=True):
     """profile: 'debug' | 'release' | 'cov' (debug + -Cinstrument-coverage, nightly-free)."""
     os.makedirs(TARGET, exist_ok=True)
-    tdir = TARGET if profile != "cov" else TARGET + "-cov"
-    os.makedirs(tdir, exist_ok=True)
     tag = hashlib.sha1(os.path.abspath(REPO).encode()).hexdigest()[:10]
+    # one cargo target directory per source path: with a shared one cargo does not re-link target/debug/masscanned
+    # when the other tree's build is "fresh", and the wrong binary would be picked up
+    tdir = TARGET if os.path.abspath(REPO) == "/repo" else os.path.join(TARGET + "-alt", tag)
+    if profile == "cov":
+        tdir += "-cov"
+    os.makedirs(tdir, exist_ok=True)
     outdir = os.path.join(TARGET, "bin", "%s-%s" % (tag, profile))
     os.makedirs(outdir, exist_ok=True)
     out = os.path.join(outdir, "masscanned")
